@@ -53,6 +53,7 @@ TEMPLATES = [
     ('nested_classes', 'HOLEA = 1\nclass Outer:\n    HOLEA = 2\n    class Inner:\n        HOLEB = HOLEA\n        def m(self):\n            return HOLEA, HOLEB, HOLEC\n'),
     ('nonlocal_import_method', 'def outer():\n    import HOLEA\n    class K:\n        def m(self, HOLEB):\n            nonlocal HOLEA\n            HOLEA = HOLEB\n            return self, self, self, HOLEC\n    return K\n'),
     ('global_first_seen', 'def f():\n    global HOLEA, HOLEB\n    HOLEA = 1\n    HOLEB = 2\ndef g():\n    return HOLEA, HOLEB, HOLEC\n'),
+    ('walrus_nested_module', 'HOLEB = [[(HOLEA := v) * 2 for v in r] for r in HOLEC]\nprint(HOLEA, HOLEB)\n'),
     ('setcomp_cond', 'def f(HOLEA, t):\n    return {HOLEB for HOLEB in HOLEA if HOLEB != HOLEC if t(HOLEB)}\n'),
 ]
 
@@ -96,6 +97,8 @@ HOIST_TEMPLATES = [
     ('class_method_doc', 'class K:\n    """class doc text"""\n    def m(self, HOLEA):\n        """class doc text"""\n        return "class doc text", "class doc text", "class doc text", HOLEA, HOLEB, HOLEC\n'),
     ('decorator_only', '@tag("/status-page")\ndef status(HOLEA):\n    return ["/status-page", "/status-page", HOLEA, HOLEB, HOLEC]\n'),
     ('import_and_literal', 'def scan(text):\n    from re import HOLEA\n    return findall("[a-z]+", text, HOLEA), "[a-z]+", "[a-z]+", HOLEB, HOLEC\n'),
+    ('folded_in_comprehension', 'def scale(HOLEA):\n    return [(0.5 + 0.5) * HOLEB + (0.5 + 0.5) - (0.5 + 0.5) for HOLEB in HOLEA], (True ^ False), (True ^ False), (True ^ False), HOLEC\n'),
+    ('folded_in_default_lambda', 'def g(HOLEA=(0.5 + 0.5), HOLEB=(0.5 + 0.5)):\n    return (lambda HOLEC: HOLEC * (0.5 + 0.5) + (0.5 + 0.5)), HOLEA, HOLEB\n'),
     ('str_vs_bytes_same', 'def f(HOLEA):\n    return "same text", "same text", "same text", b"same text", b"same text", b"same text", HOLEA, HOLEB, HOLEC\n'),
 ]
 
